@@ -3,6 +3,13 @@
 import json, sys
 
 CLAIMED = {
+ "C10": dict(
+   category="fault_enumeration",
+   text="Fault enumeration on 8 scenarios (single ObjectSet local / with delegated phase; ObjectDeployment T1{a,b} -> T2{a,c} with handover and archival, also with a delegated phase; teardown of a rolled-out ObjectSet; hand-made chain of three revisions; ObjectTemplate with a source; Package v1 -> v2 through Package, ObjectDeployment and ObjectSet controllers with sliced phases). Per scenario the reference run under a fair schedule (rounds of all reconciles of the real controllers in canonical order, workloads becoming ready, garbage collector) to quiescence yields the projected end state E*. Then for EVERY API request of EVERY pass of the reference run x {error before effect, effect with lost response, process crash + restart with an empty dynamic cache}, and for every third-party drift {delete, modify spec, drop cache label, lower the revision annotation} x managed object x round (3 128 disturbed runs quick; thorough adds pairs of faults): inject, continue fairly, and require quiescence within 50 rounds, projection == E* (managed objects' spec / owners / revision / labels, lifecycle and condition type/status/reason of the PKO objects with ObjectSet names replaced by revision rank) and one further round with zero state-changing requests (no two controllers keep overwriting each other).",
+   design_ref="DESIGN.md §7 C10",
+   note="Trusted: kmodel (incl. the no-op-write rule that makes quiescence decidable); the fair schedule is one fixed order, not all fair schedules; ownership-changing edits are not drift (an object without the owner's reference is a foreign object, C01 forbids taking it back).",
+   technique="exhaustive fault-point enumeration (every API call x fault kind, every drift x object x step) on the real controllers with a differential end-state oracle",
+   engine="world"),
  "C18": dict(
    category="model_checking",
    text="Explicit-state BFS to closure over the real ObjectTemplate controller (and a ClusterObjectTemplate variant): template t with a required source s1 and an optional source s2 of different kinds, template text from {renders both values, missing key, does not parse, foreign namespace, cluster-scoped kind with and without the template's namespace}; events with an edit budget: create / edit / delete each source, switch the template text, reconcile, delete the template, operator restart (dynamic cache lost), garbage collector; source variants: in the namespace, in another namespace, cluster-scoped kind (with / without the template's namespace set). Monitor on every pass: with valid inputs the pass succeeds and the target equals the reference rendering of the current source values; a missing optional source asks for a retry; a missing required source, unparsable template, out-of-namespace or cluster-scoped source or target => no write on the target and persisted Invalid=True; every effective write of a namespaced template hits a namespaced kind in its namespace (this is C11's ObjectTemplate clause); after every valid pass the real EnqueueWatchingObjects handler, fed by the real cache's owner sets, enqueues the template for an event on either source; after deletion the cache lists no watch of the template.",
